@@ -181,7 +181,7 @@ class Check:
             if k.get("kind", "known") != "known":
                 continue
             try:
-                if k["site"] == f.get("site_class", f.get("site")) and eval(k["trigger"], {}, dict(f=f, **f.get("features", {}))):
+                if k["site"] == f.get("site_class", f.get("site")) and eval(k["trigger"], dict(f=f, **f.get("features", {}))):
                     self.known_hits.setdefault(k["id"], k["what"])
                     return
             except Exception:
